@@ -11,6 +11,7 @@ from harness.translators import c10_gen
 import scikit_tt.tensor_train as ttm
 from scikit_tt.tensor_train import TT
 import scikit_tt.solvers.ode as ode
+lib.guard_expm(ode)
 
 PROP_FILES = ['Props/C10.v']
 REQ = ['SkTT.Check.C10']
